@@ -1,7 +1,7 @@
 (* C17 — a commandable value equals its highest-priority command or the default.
    Property theorems only; the model is Bac.Prio, the proofs live in Bac.PrioFacts.
    The model is of the tree with the two `fix:` commits named in docs/C17.md. *)
-From Bac Require Import Base Prio PrioFacts.
+From Bac Require Import Base Prio PrioFacts PrioHold.
 Open Scope Z_scope.
 
 (* After ANY list of operations (commands at any priority, valid or not, with or without
@@ -74,6 +74,43 @@ Theorem C17_min_on_off_release : forall o d dt o' r,
 Proof. exact min_on_off_release. Qed.
 Print Assumptions C17_min_on_off_release.
 
+(* The hold, over whole histories.  `hold_after o g es` (Prio.v) is the hold as the statement
+   describes it, computed only from the present value before/after each operation and the clock:
+   a change of the present value to active (inactive) with minimumOnTime (minimumOffTime) T > 0 at
+   instant t starts a hold of that state until exactly t + T, replacing a hold still running;
+   nothing else touches a running hold — not a command at any other priority, not a relinquish,
+   not a change to a state whose minimum time is 0 —; it is gone once the clock has reached its
+   deadline.  After ANY history that leaves priority 6 to the mechanism (commands at every other
+   priority, valid or refused, relinquishes, clock advances of any size), slot 6 holds exactly the
+   state of that hold (null when there is none), the release is scheduled exactly at its deadline
+   (nothing is scheduled when there is none), and the deadline is still ahead. *)
+Theorem C17_hold_exact : forall es o g,
+  monitored o = true -> length (slots o) = 16%nat -> 0 <= min_on o -> 0 <= min_off o ->
+  no_user6 es = true -> hold_inv o g ->
+  hold_inv (run o es) (hold_after o g es).
+Proof. exact hold_exact. Qed.
+Print Assumptions C17_hold_exact.
+
+(* what hold_inv says, and that every constructed object starts without a hold; with
+   C17_pv_is_winner: at every instant the present value is the winner of the commanded slots alone
+   unless a hold is running, and then slot 6 is that hold's state *)
+Theorem C17_hold_meaning :
+  (forall o, hold_inv o None -> slot6 o = Some None /\ timer o = None) /\
+  (forall o v u, hold_inv o (Some (v, u)) -> slot6 o = Some (Some v) /\ timer o = Some u /\ now o < u) /\
+  (forall d p m on off nw, hold_inv (mkObj no_slots d p m on off None nw) None).
+Proof. exact (conj hold_none (conj hold_some hold_inv_fresh)). Qed.
+Print Assumptions C17_hold_meaning.
+
+(* one step of the hold: it starts exactly at a change to a state with a minimum time > 0 and
+   lasts exactly that time; otherwise it is what it was, until the clock reaches its deadline *)
+Theorem C17_hold_step : forall on off g p w nw,
+  (w <> p -> 0 < min_time on off w -> hold_step on off g p w nw = Some (w, nw + min_time on off w)) /\
+  (min_time on off w = 0 -> hold_step on off g p w nw = expire g nw) /\
+  (live g nw -> hold_step on off g p p nw = g) /\
+  (forall v u, u <= nw -> expire (Some (v, u)) nw = None) /\ (live g nw -> expire g nw = g).
+Proof. exact hold_step_spec. Qed.
+Print Assumptions C17_hold_step.
+
 (* The recursion bound of the model (the monitor re-enters WriteProperty once) is never hit. *)
 Theorem C17_fuel_enough : forall o e, snd (step o e) <> WExc OutOfFuel.
 Proof. exact step_fuel_enough. Qed.
@@ -114,4 +151,26 @@ Proof. eexists. eexists. split; [vm_compute; reflexivity|]. cbn. repeat split; t
 Example C17_refused_example :
   command av0 (Some 0) (Some 1) = (av0, WDenied) /\ command av0 (Some 17) (Some 1) = (av0, WBadIndex)
   /\ command av0 (Some (-1)) None = (av0, WBadIndex).
+Proof. vm_compute. repeat split. Qed.
+
+(* a hold that is overridden: on 5 s, no minimum off time.  active at priority 8 at t=0 (hold
+   until 5), inactive at priority 3 at t=2 (no minimum time: the running hold stays), priority 8
+   relinquished at t=3; at t=5 slot 6 is released although the state changed in between *)
+Definition bv50 : obj := mkObj no_slots 0 0 true 5 0 None 0.
+Definition overridden : list op :=
+  [Cmd (Some 8) (Some ACTIVE); Tick 2; Cmd (Some 3) (Some INACTIVE); Tick 1; Cmd (Some 8) None; Tick 1].
+Example C17_hold_overridden :
+  no_user6 (overridden ++ [Tick 1]) = true /\ hold_inv bv50 None /\
+  hold_after bv50 None overridden = Some (ACTIVE, 5) /\
+  (let o := run bv50 overridden in (pv o, slot6 o, timer o, now o)) = (INACTIVE, Some (Some ACTIVE), Some 5, 4) /\
+  hold_after bv50 None (overridden ++ [Tick 1]) = None /\
+  (let o := run bv50 (overridden ++ [Tick 1]) in (pv o, slot6 o, timer o, now o)) = (INACTIVE, Some None, None, 5).
+Proof. unfold hold_inv, slot6. vm_compute. repeat split; auto. Qed.
+
+(* both times non-zero (on 2, off 3): a flip during the hold starts the new state's own hold *)
+Example C17_hold_restarted :
+  let o0 := mkObj no_slots 0 0 true 2 3 None 0 in
+  let es := [Cmd (Some 8) (Some ACTIVE); Tick 1; Cmd (Some 3) (Some INACTIVE)] in
+  hold_after o0 None es = Some (INACTIVE, 4) /\ timer (run o0 es) = Some 4 /\
+  slot6 (run o0 (es ++ [Tick 2])) = Some (Some INACTIVE) /\ slot6 (run o0 (es ++ [Tick 3])) = Some None.
 Proof. vm_compute. repeat split. Qed.
